@@ -290,6 +290,72 @@ static int check_stream(struct st *s, const uint8_t *ref, int nbytes)
                 }
             }
             ubuf_free(u);
+            if (a == 0 || b == a)
+                continue;
+            /* the same three-segment layout obtained differently, read back from bit 0:
+             * (i) [A D] as one segment, [B C'] (itself two segments when it has two octets or more) inserted at a;
+             * (ii) zero-filled segments filled through write mappings that start inside a segment (each mapping must stop
+             *      at the end of its segment). */
+            for (int variant = 0; variant < 2; variant++) {
+                struct ubuf *v;
+                if (variant == 0) {
+                    uint8_t ad[64];
+                    memcpy(ad, ref, a);
+                    memcpy(ad + a, ref + b, nbytes - b);
+                    v = mkblock(ad, a + nbytes - b);
+                    int m = a + (b - a) / 2;
+                    struct ubuf *mid = mkblock(ref + a, (m > a ? m : b) - a);
+                    if (m > a)
+                        ubase_assert(ubuf_block_append(mid, mkblock(ref + m, b - m)));
+                    if (!ubase_check(ubuf_block_insert(v, a, mid))) {
+                        ubuf_free(mid);
+                        ubuf_free(v);
+                        SEQX_FAIL("stream-insert", "in-range insert of a segmented block refused");
+                    }
+                } else {
+                    uint8_t z[64] = {0};
+                    v = mkblock(z, a);
+                    ubase_assert(ubuf_block_append(v, mkblock(z, b - a)));
+                    ubase_assert(ubuf_block_append(v, mkblock(z, nbytes - b)));
+                    int bounds[4] = {a, b, nbytes, nbytes};
+                    int off = a > 1 ? 1 : 0; /* start inside the first segment when it has two octets */
+                    if (off) {
+                        int sz = off;
+                        uint8_t *w;
+                        ubase_assert(ubuf_block_write(v, 0, &sz, &w));
+                        memcpy(w, ref, off);
+                        ubuf_block_unmap(v, 0);
+                    }
+                    while (off < nbytes) {
+                        int next = bounds[0] > off ? bounds[0] : bounds[1] > off ? bounds[1] : bounds[2];
+                        int segstart = next == a ? 0 : next == b ? a : b;
+                        int sz = off > segstart ? next - segstart : -1; /* inside a segment: ask for as much as the whole segment holds */
+                        uint8_t *w;
+                        if (!ubase_check(ubuf_block_write(v, off, &sz, &w)) || sz != next - off) {
+                            ubuf_free(v);
+                            SEQX_FAIL("block-write-window", "write mapping at offset %d of segments cut at %d,%d is %d octets long, the segment has %d left", off, a, b, sz, next - off);
+                        }
+                        memcpy(w, ref + off, sz);
+                        ubuf_block_unmap(v, off);
+                        off += sz;
+                    }
+                }
+                struct ubuf_block_stream bs;
+                ubase_assert(ubuf_block_stream_init_bits(&bs, v, 0));
+                for (int i = 0; i < s->nf; i++) {
+                    uint32_t got = stream_read(&bs, s->w[i]);
+                    if (got != s->v[i] || bs.overflow) {
+                        snprintf(seqx_sig, sizeof(seqx_sig), "stream-mismatch:%s:w=%d", variant == 0 ? "inserted-segments" : "written-through-mappings", s->w[i]);
+                        snprintf(seqx_msg, sizeof(seqx_msg), "segments cut at %d,%d (%s): field %d width %d read 0x%x wrote 0x%x overflow=%d", a, b,
+                                 variant == 0 ? "middle part inserted as a segmented block" : "filled through write mappings", i, s->w[i], got, s->v[i], bs.overflow);
+                        ubuf_block_stream_clean(&bs);
+                        ubuf_free(v);
+                        return SEQX_VIOL;
+                    }
+                }
+                ubuf_block_stream_clean(&bs);
+                ubuf_free(v);
+            }
         }
     }
     return SEQX_OK;
